@@ -634,3 +634,30 @@ def type_at(model: Dict[str, Any], root: str, loc: Sequence[str]) -> str:
     if k == "cprim":
         k = "cprim." + cprim_prim(model, t["n"])
     return ("opt." if opt else "") + k
+
+
+def const_feature(value: Dict[str, Any]) -> str:
+    """What is special about a constant's value (for fingerprints): the escape-relevant shape of its text."""
+    texts: List[List[int]] = []
+    if value["k"] == "str":
+        texts = [value["v"]]
+    elif value["k"] in ("strset", "enumset"):
+        texts = list(value["v"])
+    elif value["k"] in ("int", "intset"):
+        ints = [value] if value["k"] == "int" else value["v"]
+        return "int64_extreme" if any(int_of(v) in (2**63 - 1, -(2**63)) for v in ints) else "plain"
+    else:
+        return "plain"
+    hexdigits = set(b"0123456789abcdefABCDEF")
+    feats = set()
+    for t in texts:
+        for i, c in enumerate(t):
+            if c > 0xFFFF:
+                feats.add("astral")
+            elif c > 0x7F:
+                feats.add("non_ascii")
+                if i + 1 < len(t) and t[i + 1] in hexdigits:
+                    feats.add("non_ascii_then_hex_digit")
+            elif c < 0x20 or c in (0x22, 0x5C):
+                feats.add("needs_escape")
+    return ",".join(sorted(feats)) or "plain"
